@@ -13,6 +13,7 @@ import InToto.Generated.Facts
 import InToto.Model.SchemaFacts
 import InToto.Proofs.Walk
 import InToto.Proofs.Snapshots
+import InToto.Model.Switches
 
 namespace InToto.C13
 open InToto InToto.Record InToto.RecordProofs InToto.WalkProofs
@@ -141,5 +142,28 @@ theorem untouched_file_reported_unchanged (fs : Verify.FS) (sets : List (Str × 
     lookup p (Verify.runStep fs sets dels).products = lookup p fs := by
   unfold Verify.runStep Verify.applyEffect
   rw [SnapProofs.lookup_dels, SnapProofs.lookup_sets_untouched sets fs p h]; simp [hd]
+
+/-- C13 (all combinations of the two switches, through the link-producing wrappers): materials AND
+    products are recorded under the switches the caller passed — without normalisation the raw
+    digests, with it the normalised ones; the files behind a directory symlink exactly when the
+    follow switch is set -/
+theorem switches_select_the_recorded_view (norm follow : Bool) (raw normd extRaw extNorm : Verify.FS)
+    (sr sn : List (Str × Str)) (dels : List Str) :
+    (Verify.runStepSw norm follow raw normd extRaw extNorm sr sn dels).materials =
+      (if norm then normd else raw) ++ (if follow then (if norm then extNorm else extRaw) else []) ∧
+    (Verify.runStepSw norm follow raw normd extRaw extNorm sr sn dels).products =
+      Verify.applyEffect ((if norm then normd else raw) ++ (if follow then (if norm then extNorm else extRaw) else []))
+        (if norm then sn else sr) dels := ⟨rfl, rfl⟩
+
+/-- … in particular neither switch does the other's work: normalisation alone never brings in the
+    files behind a directory symlink, following alone never changes a digest -/
+theorem switches_are_independent (raw normd extRaw extNorm : Verify.FS) (sr sn : List (Str × Str)) (dels : List Str) :
+    (Verify.runStepSw true false raw normd extRaw extNorm sr sn dels).materials = normd ∧
+    (Verify.runStepSw false true raw normd extRaw extNorm sr sn dels).materials = raw ++ extRaw ∧
+    (Verify.runStepSw false false raw normd extRaw extNorm sr sn dels) = Verify.runStep raw sr dels := by
+  refine ⟨?_, rfl, ?_⟩ <;> simp [Verify.runStepSw, Verify.viewFS, Verify.runStep]
+
+example : (Verify.runStepSw true false [(['a'], ['1'])] [(['a'], ['2'])] [(['l', '/', 'e'], ['3'])] [(['l', '/', 'e'], ['4'])] [] [] []).products
+    = [(['a'], ['2'])] := by decide
 
 end InToto.C13
